@@ -273,6 +273,14 @@ func (cw *c04World) genMessage(c *simkit.Chooser) (topic string, data []byte, wa
 			desc += " +instance-id"
 		case 1:
 			v := simkit.Pick(c, []uint64{1, 2, 3, 0, 1 << 63, ^uint64(0)}, "eon-value")
+			if c.Chance(300, "eon-alias") {
+				// a number that collapses to an existing keyper set index when narrowed to 32 / 16 / 8 bits
+				cur := sh.GetEon()
+				if isKeys {
+					cur = km.GetEon()
+				}
+				v = cur + simkit.Pick(c, []uint64{1 << 32, 3 << 32, 1 << 31, 1 << 16, 1 << 8, 1 << 62}, "eon-alias-offset")
+			}
 			if isKeys {
 				km.Eon = v
 			} else {
